@@ -51,14 +51,28 @@ def extra_cases(tier):
     from corpus import rejects as RJ
     cs = [RJ.big_enum_case(65534, 'C11', 'accept')]
     cs[0]['class'] = 'size/65534-largest-supported'
-    attrs = ['#[allow(dead_code)]', '/// documentation on the enum', '#[doc = "more"]', '#[cfg_attr(all(), allow(unused))]', '#[must_use]', '#[non_exhaustive]']
+    attrs = ['#[allow(dead_code)]', '/// documentation on the enum', '#[doc = "more"]', '#[cfg_attr(all(), allow(unused))]', '#[must_use]', '#[non_exhaustive]', '#[rustfmt::skip]',
+             '#[allow(clippy::enum_variant_names)]', '#[cfg_attr(all(), rustfmt::skip)]']
     body = ['#[derive(Clone, Copy, EnumTools, PartialEq, Eq, PartialOrd, Ord, Hash, Debug)]'] + attrs + ['#[enum_tools(into, try_from, MIN, MAX, next, next_back, iter, names, as_str, from_str, range, Display, FromStr, Into, IntoStr, TryFrom)]', '#[repr(i16)]',
-            'pub enum E { /// first', '#[allow(unused)] A = -3, #[doc = "b"] #[cfg_attr(all(), allow(dead_code))] B, #[deprecated] C = 0x10, /** block doc */ #[enum_tools(rename = "dd")] #[allow(non_camel_case_types)] D_d = 0b1_0001, }']
+            'pub enum E { /// first', '#[allow(unused)] #[rustfmt::skip] A = -3, #[doc = "b"] #[cfg_attr(all(), allow(dead_code))] B, #[deprecated] C = 0x10, /** block doc */ #[enum_tools(rename = "dd")] #[allow(non_camel_case_types)] D_d = 0b1_0001, }']
     cs.append(RJ.case('c11_foreign_attrs', 'C11', 'foreign-attributes', body, 'accept'))
+    cs[-1]['with_prelude'] = True
     body2 = ['#[derive(Clone, Copy, EnumTools)]', '#[enum_tools(into, MIN, MAX, try_from)]', '#[repr(u64)]', '#[allow(clippy::all)]', 'pub enum E { A = 0o17, B = 1_0, C = 0xFFu64, D = 9_223_372_036_854_775_807, }']
     cs.append(RJ.case('c11_spellings', 'C11', 'literal-spellings', body2, 'accept'))
     body3 = ['#[derive(Clone, Copy, EnumTools)]', '#[enum_tools(into, MIN, MAX, try_from, next)]', '#[repr(i64)]', 'pub enum E { A = -9_223_372_036_854_775_808, B = -0x7FFF_FFFF_FFFF_FFFF, C = -0b1, D = -0o7i64, E = -0 }']
     cs.append(RJ.case('c11_negative_spellings', 'C11', 'negated-literal-spellings', body3, 'accept'))
+    # the documented compile-time feature `sorted` must not narrow the accepted domain of sorted declarations
+    for nm, attr, vs in [('neg-first', 'sorted(value)', ['A = -40', 'B = -3', 'C = 7']), ('i64-min-first', 'sorted(value)', ['A = -9223372036854775808', 'B = -1', 'C']),
+                         ('both', 'sorted(name, value)', ['A = -2', 'B', 'C = 5']), ('name-only-values-free', 'sorted(name)', ['A = 5', 'B = -7', 'C = 0'])]:
+        cs.append(RJ.case('c11_sorted_' + nm.replace('-', '_'), 'C11', 'sorted-accept/' + nm, ['#[derive(Clone, Copy, EnumTools)]', '#[enum_tools(%s, into, try_from, MIN, MAX, iter, as_str(mode = "table"), from_str(mode = "table"), names)]' % attr, '#[repr(i64)]', 'pub enum E { %s }' % ', '.join(vs)], 'accept'))
+    # attribute order: repr before / between the enum_tools attributes
+    for nm, lines in [('repr-first', ['#[repr(u8)]', '#[enum_tools(into, MIN)]', '#[enum_tools(try_from, iter)]']), ('repr-middle', ['#[enum_tools(into, MIN)]', '#[repr(u8)]', '#[enum_tools(try_from, iter)]']),
+                      ('repr-before-derive', None)]:
+        if lines is None:
+            body = ['#[repr(u8)]', '#[derive(Clone, Copy, EnumTools)]', '#[enum_tools(into, MIN, try_from, iter)]', 'pub enum E { A, B }', 'pub fn probe() { let _ = E::A.into(); let _ = E::MIN; let _ = E::try_from(0); let _ = E::iter(); }']
+        else:
+            body = ['#[derive(Clone, Copy, EnumTools)]'] + lines + ['pub enum E { A, B }', 'pub fn probe() { let _ = E::A.into(); let _ = E::MIN; let _ = E::try_from(0); let _ = E::iter(); }']
+        cs.append(RJ.case('c11_attr_' + nm.replace('-', '_'), 'C11', 'attribute-order/' + nm, body, 'accept'))
     return cs
 
 def main(tier, seed, t0):
